@@ -71,14 +71,14 @@ Backoff(cfg, a) == Rt!PowCap(cfg.base_ms, 2, a - 1, cfg.max_ms)
 Scaled(cfg, a, m) == (Backoff(cfg, a) * m[1]) \div m[2]
 JLo(cfg, x) == (x * (100 - JitPct(cfg.jit))) \div 100
 JHi(cfg, x) == Rt!CeilDiv(x * (100 + JitPct(cfg.jit)), 100)
-DelayWithin(cfg, a, m, d, tol) == d >= JLo(cfg, Scaled(cfg, a, m)) - tol /\ d <= JHi(cfg, Scaled(cfg, a, m)) + tol
-CapOK(cfg, d, tol) == d <= JHi(cfg, cfg.max_ms) + tol
-\* the delay d before attempt a+1 (a >= 1), network condition factor m
-DelayOK(cfg, a, M, d, tol) == \E m \in M : DelayWithin(cfg, a, m, d, tol) /\ CapOK(cfg, d, tol)
-(* FX02f: the network-condition factor (x1.5, x2) is applied AFTER min(.., max_delay), so the wait
-   exceeds max_delay although it is the scaled capped value. *)
+Capped(cfg, a, m) == Rt!Min2r(Scaled(cfg, a, m), cfg.max_ms)                 \* D2: the cap holds after scaling, too
+Near(cfg, x, d, tol) == d >= JLo(cfg, x) - tol /\ d <= JHi(cfg, x) + tol
+\* the delay d before attempt a+1 (a >= 1), network condition factor one of M
+DelayOK(cfg, a, M, d, tol) == \E m \in M : Near(cfg, Capped(cfg, a, m), d, tol)
+(* FX02f: the network-condition factor (x1.5, x2) is applied AFTER min(.., max_delay), so the wait is the
+   scaled capped value and exceeds max_delay. *)
 DelayOverCap(cfg, a, M, d, tol) ==
-  \E m \in M \cap {<<3, 2>>, <<2, 1>>} : DelayWithin(cfg, a, m, d, tol) /\ ~CapOK(cfg, d, tol)
+  \E m \in M \cap {<<3, 2>>, <<2, 1>>} : Scaled(cfg, a, m) > cfg.max_ms /\ Near(cfg, Scaled(cfg, a, m), d, tol)
 (* FX02g: 2_u32.pow(attempt - 1) overflows from attempt 33 on (panic with overflow checks, delay 0 without). *)
 PowOverflow(a) == a >= 33
 
